@@ -984,6 +984,10 @@ def _set(interp, args, kwargs, node, env):
     return set(interp.hashable(x) for x in interp.iterate(args[0], node)) if args else set()
 
 
+def _frozenset(interp, args, kwargs, node, env):
+    return frozenset(interp.hashable(x) for x in interp.iterate(args[0], node)) if args else frozenset()
+
+
 def _tuple(interp, args, kwargs, node, env):
     return tuple(interp.iterate(args[0], node)) if args else ()
 
@@ -1117,7 +1121,7 @@ def _enumerate(interp, args, kwargs, node, env):
     return list(enumerate(interp.iterate(args[0], node)))
 
 
-BUILTINS = {'list': _list, 'set': _set, 'tuple': _tuple, 'dict': _dict, 'isinstance': _isinstance, 'issubclass': _issubclass, 'hasattr': _hasattr, 'getattr': _getattr, 'setattr': _setattr, 'super': _super,
+BUILTINS = {'list': _list, 'set': _set, 'frozenset': _frozenset, 'tuple': _tuple, 'dict': _dict, 'isinstance': _isinstance, 'issubclass': _issubclass, 'hasattr': _hasattr, 'getattr': _getattr, 'setattr': _setattr, 'super': _super,
             'len': _len, 'dir': _dir, 'print': _print, 'sorted': _sorted, 'range': _range, 'zip': _zip, 'enumerate': _enumerate, 'abs': _b(abs), 'max': _b(max), 'min': _b(min),
             'float': _b(float), 'int': _b(int), 'str': _b(str), 'bool': _b(bool), 'sum': _b(sum), 'round': _b(round), 'any': _b(any), 'all': _b(all),
             'True': True, 'False': False, 'None': None, 'object': Opaque('object'), 'RuntimeError': Opaque('RuntimeError'), 'ValueError': Opaque('ValueError'),
